@@ -108,8 +108,8 @@ def _run_closure(prog, cls, flag, preset=(), inf_core=False):
         pot = Arr(P.ite(P.Cond.cmp('>', R, S), U, UINF), 'self.potential', ip)
     else:
         pot = Arr(U, 'self.potential', ip)
-    o.attrs['potential'] = pot
-    o.attrs['sigma'] = Num(S)
+    ip.set_attr(o, 'potential', pot, None)
+    ip.set_attr(o, 'sigma', Num(S), None)
     r = Arr(R, 'r', ip)
     g = Arr(G, 'gamma', ip)
     m = ip.find_method(o, 'calculate')
@@ -652,16 +652,16 @@ def run_twice(prog, cls, flag, preset=(), feedback=False, grid=False):
         ip.len_alias = {'g': 'r', 'u': 'r', 'g1': 'r', 'u1': 'r', 'r1': 'r'}
     o = ip.construct(cls, [], {'apply_hard_core': Const(flag)})
     o.origin = 'self'
-    o.attrs['sigma'] = Num(S if grid else N.sym('sigma1'))     # the contact distance of the first evaluation (before a diameter edit)
+    ip.set_attr(o, 'sigma', Num(S if grid else N.sym('sigma1')), None)     # the contact distance of the first evaluation (before a diameter edit)
     r = Arr(R, 'r', ip)
     m = ip.find_method(o, 'calculate')
     # first call: (u1, g1)
-    o.attrs['potential'] = Arr(N.sym('u1'), 'self.potential', ip)
+    ip.set_attr(o, 'potential', Arr(N.sym('u1'), 'self.potential', ip), None)
     res1 = ip.call(m, [Arr(N.sym('r1'), 'r_other', ip) if grid else r, Arr(N.sym('g1'), 'gamma', ip)], {})
     t1 = res1.t if isinstance(res1, (Arr, Num)) else None
     # the user (or PRISM.__init__ of a re-created object) installs another potential, the solver another gamma
-    o.attrs['potential'] = Arr(U, 'self.potential', ip)
-    o.attrs['sigma'] = Num(S)
+    ip.set_attr(o, 'potential', Arr(U, 'self.potential', ip), None)
+    ip.set_attr(o, 'sigma', Num(S), None)
     if feedback:        # the array returned by the first evaluation is handed back as gamma (with contents g)
         if not isinstance(res1, Arr):
             raise Unsupported('first result is not a plain array')
@@ -686,11 +686,11 @@ def run_copy(prog, cls, flag, preset=()):
     tmpl = ip.construct(cls, [], {'apply_hard_core': Const(flag)})
     o = ip.lib.deepcopy(ip, [tmpl], {}, None)
     o.origin = 'self'
-    tmpl.attrs['sigma'] = Num(N.sym('sigma1'))
-    tmpl.attrs['potential'] = Arr(N.sym('u1'), 'template.potential', ip)
-    tmpl.attrs['apply_hard_core'] = Const(not flag)
-    o.attrs['potential'] = Arr(U, 'self.potential', ip)
-    o.attrs['sigma'] = Num(S)
+    ip.set_attr(tmpl, 'sigma', Num(N.sym('sigma1')), None)
+    ip.set_attr(tmpl, 'potential', Arr(N.sym('u1'), 'template.potential', ip), None)
+    ip.set_attr(tmpl, 'apply_hard_core', Const(not flag), None)
+    ip.set_attr(o, 'potential', Arr(U, 'self.potential', ip), None)
+    ip.set_attr(o, 'sigma', Num(S), None)
     garr = Arr(G, 'gamma', ip)
     res = ip.call(ip.find_method(o, 'calculate'), [Arr(R, 'r', ip), garr], {})
     return ip, {'res': res, 'obj': o, 'res1': None, 't1': None, 'garr': garr, 'feedback': False}
@@ -706,13 +706,13 @@ def run_other_grid(prog, cls, flag, preset=()):
         ip.declare(s_, k)
     ip.len_alias = {'g': 'r', 'u': 'r', 'g1': 'r', 'u1': 'r', 'r1': 'r'}
     first = ip.construct(cls, [], {'apply_hard_core': Const(flag)})
-    first.attrs['sigma'] = Num(S)
-    first.attrs['potential'] = Arr(N.sym('u1'), 'other.potential', ip)
+    ip.set_attr(first, 'sigma', Num(S), None)
+    ip.set_attr(first, 'potential', Arr(N.sym('u1'), 'other.potential', ip), None)
     ip.call(ip.find_method(first, 'calculate'), [Arr(N.sym('r1'), 'r_other', ip), Arr(N.sym('g1'), 'gamma_other', ip)], {})
     o = ip.construct(cls, [], {'apply_hard_core': Const(flag)})
     o.origin = 'self'
-    o.attrs['sigma'] = Num(S)
-    o.attrs['potential'] = Arr(U, 'self.potential', ip)
+    ip.set_attr(o, 'sigma', Num(S), None)
+    ip.set_attr(o, 'potential', Arr(U, 'self.potential', ip), None)
     garr = Arr(G, 'gamma', ip)
     res = ip.call(ip.find_method(o, 'calculate'), [Arr(R, 'r', ip), garr], {})
     return ip, {'res': res, 'obj': o, 'res1': None, 't1': None, 'garr': garr, 'feedback': False}
@@ -816,8 +816,8 @@ def rule_flag_reassigned(ctx, rule='R09.f'):
                         ip.declare(s_, k)
                     o = ip.construct(dcls, [], {'apply_hard_core': Const(not flag)})
                     o.origin = 'self'
-                    o.attrs['potential'] = Arr(U, 'self.potential', ip)
-                    o.attrs['sigma'] = Num(S)
+                    ip.set_attr(o, 'potential', Arr(U, 'self.potential', ip), None)
+                    ip.set_attr(o, 'sigma', Num(S), None)
                     ip.set_attr(o, 'apply_hard_core', Const(flag), None)
                     res = ip.call(ip.find_method(o, 'calculate'), [Arr(R, 'r', ip), Arr(G, 'gamma', ip)], {})
                     return ip, {'res': res}
